@@ -40,4 +40,6 @@ for p, i, n, b in rows:
 lean[-1] = lean[-1].replace("]),  --", "])   --", 1)
 lean += ["]", "", "end Anything.Spec.Pinned"]
 (C.LEAN / "Anything" / "Spec" / "PinnedIds.lean").write_text("\n".join(lean) + "\n")
-print(len(rows), "units,", len(facts), "facts")
+from vcheck import fingerprints
+fingerprints.PINNED.write_text(__import__("json").dumps(fingerprints.current(), indent=1, sort_keys=True) + "\n")
+print(len(rows), "units,", len(facts), "facts,", len(fingerprints.current()), "source hashes")
